@@ -88,8 +88,10 @@ def DebugTransparent (env : Env) : Prop :=
 /-- General form: two states that differ only in logger switches, log, and debug wrappers around what is installed
     produce the same transcript (calls, arguments, results, panics) for every operation list — including lists that
     toggle the switches in the middle — and end in states that again differ only in that way.
-    Hypotheses (`Total`): fmt returns on every value (otherwise `Findings/C19F13.lean`), and the mocked function is not
-    one the console logger calls itself (otherwise `Findings/C19F14.lean`). -/
+    Hypotheses (`Total`): fmt returns on every value (otherwise `Findings/C19F13.lean`), the user methods fmt runs
+    (String/Error/Format) record nothing (otherwise `Findings/C19F27.lean`), and the mocked function is not in the list
+    `loggerCallees` of functions the console logger calls itself (otherwise `Findings/C19F14.lean`).
+    Limits of the statement, not of the proof: one mocker per environment; sequential callers; panics are classes. -/
 theorem debug_transparent_sim (env : Env) (tot : Total env) (a b : St) (h : Sim a b) (ops : List Op) :
     obs env a ops = obs env b ops ∧ Sim (run env a ops).2 (run env b ops).2 :=
   run_sim env tot ops a b h
@@ -125,12 +127,18 @@ def exOps : List Op :=
    .ret [intVal 9],
    .call [.atom { kind := .str, isNil := false, tok := "s", n := 0 }, .pack []]]
 
-example : Total exEnv := ⟨fun _ => rfl, rfl⟩
+example : Total exEnv := ⟨fun _ => rfl, fun _ => rfl, by decide⟩
 /-- in configuration debug the callback IS reached through the wrapper and two lines ARE logged, in configuration off
     neither happens — and the transcripts agree (by the theorem, and here by evaluation) -/
 example : (run exEnv (initSt .debug) exOps).2.wraps = [true] ∧ (run exEnv (initSt .debug) exOps).2.log.length = 2 ∧
           (run exEnv (initSt .off) exOps).2.wraps = [false] ∧ (run exEnv (initSt .off) exOps).2.log.length = 0 ∧
           obs exEnv (initSt .debug) exOps = obs exEnv (initSt .off) exOps ∧
           obs exEnv (initSt .off) exOps = ["ok", "cbsum1(sab,[4]#1)->r:7~a1", "ok", "->r:9"] := by decide
+
+/-- In the model OpenTrace is more than OpenDebug: it additionally turns on the LogLevel-gated patch diagnostics
+    (`traceLines`), which — like the console log — no observation depends on.  (`initSt .env` = `initSt .debug` is
+    faithful: logger.go:70 `init` just calls `OpenDebug()`.) -/
+example : (run exEnv (initSt .trace) exOps).2.traceLines = 2 ∧ (run exEnv (initSt .debug) exOps).2.traceLines = 0 ∧
+          obs exEnv (initSt .trace) exOps = obs exEnv (initSt .debug) exOps := by decide
 
 end C19
